@@ -26,6 +26,8 @@ pub enum Entry {
     Seq,
     /// `dispatch_thread_local` only
     TlOnly,
+    /// the dispatcher's `RunNow::run_now` (documented as `dispatch`)
+    RunNowTrait,
 }
 
 impl Entry {
@@ -33,10 +35,10 @@ impl Entry {
         !matches!(self, Entry::TlOnly)
     }
     pub fn runs_tl(self) -> bool {
-        matches!(self, Entry::Dispatch | Entry::SeqTl | Entry::TlOnly)
+        matches!(self, Entry::Dispatch | Entry::SeqTl | Entry::TlOnly | Entry::RunNowTrait)
     }
     pub fn parallel(self) -> bool {
-        matches!(self, Entry::Dispatch | Entry::Par)
+        matches!(self, Entry::Dispatch | Entry::Par | Entry::RunNowTrait)
     }
 }
 
@@ -88,12 +90,17 @@ pub fn run_call(
     ctx.seq_inner.store(!entry.parallel(), SeqCst);
     let conducted = strategy.is_some() && entry.parallel();
     if let (true, Some(s)) = (conducted, strategy) {
-        let tracker = Tracker::new(b.flat.clone(), b.layouts.clone(), entry == Entry::Dispatch);
+        let tracker = Tracker::new(
+            b.flat.clone(),
+            b.layouts.clone(),
+            matches!(entry, Entry::Dispatch | Entry::RunNowTrait),
+        );
         ctx.cond.arm(tracker, s, deadline);
     }
     let d = &mut b.d;
     let r = catch_unwind(AssertUnwindSafe(|| match entry {
         Entry::Dispatch => d.dispatch(world),
+        Entry::RunNowTrait => shred::RunNow::run_now(d, world),
         #[cfg(feature = "par")]
         Entry::Par => d.dispatch_par(world),
         #[cfg(not(feature = "par"))]
